@@ -188,7 +188,7 @@ let gen_vname (k : int) : Model.n list =
   let raw = List.rev (drop (List.rev (drop raw))) in
   let raw = if chance 1 8 then raw @ [ 0xC3; 0xA4 ] else raw in
   (* distinct names: the variable number is part of the name *)
-  let tag = List.map Char.code (List.of_seq (String.to_seq (Printf.sprintf "v%d" k))) in
+  let tag = List.map Char.code (List.of_seq (String.to_seq (Printf.sprintf "v%d_" k))) in
   List.map n_of_int (tag @ raw)
 
 let strip_names (l : Model.vname option list) : Model.vname option list =
@@ -220,7 +220,12 @@ let gen_varset (nv : int) : Model.varset =
 
 let gen_varset (nv : int) : Model.varset =
   let vs = gen_varset nv in
-  if not (Model.wf_vars_b vs) then failwith "genq: generated variable set is not well-formed";
+  if not (Model.wf_vars_b vs) then
+    failwith
+      (Printf.sprintf "genq: generated variable set is not well-formed: nv=%d order=[%s] names=[%s]" nv
+         (String.concat "," (List.map string_of_n vs.Model.vs_order))
+         (String.concat ","
+            (List.map (function Some n -> hex_of_bytes n | None -> "-") vs.Model.vs_names)));
   vs
 
 let plain_varset nv = { Model.vs_len = n_of_int nv; vs_order = []; vs_tree = None; vs_names = [] }
